@@ -9,6 +9,7 @@ def faultOf (s : String) : R Fault :=
   | "srv-finish" => pure .srvFinish | "srv-fail" => pure .srvFail | "drop" => pure .drop
   | "half-close" => pure .halfClose | "garbage" => pure .garbage | "not-envelope" => pure .notEnvelope
   | "oversize" => pure .oversize
+  | "odd-session" => pure .oddSession
   | x => throw s!"bad fault {x}"
 
 def handle (j : Json) : R Json := do
